@@ -612,7 +612,7 @@ func (s *Sched) teardown(buf *[]byte) {
 		default:
 		}
 	}
-	deadline := time.Now().Add(2 * time.Second)
+	deadline := time.Now().Add(20 * time.Second)
 	for {
 		s.mu.Lock()
 		alive := 0
@@ -645,7 +645,15 @@ func (s *Sched) teardown(buf *[]byte) {
 	}
 }
 
-// Leaked reports goroutines of the last execution that could not be terminated.
+// LeakedTotal counts goroutines of finished executions that could not be terminated (they stay
+// parked for the rest of the process; harmless for verdicts, they only cost memory and snapshot time).
+var LeakedTotal atomic.Int64
+
+// NoteLeak records leaked goroutines of one execution; it reports true while the total is tolerable.
+func NoteLeak(n int) bool {
+	return LeakedTotal.Add(int64(n)) <= 200
+}
+
 func (r Result) String() string {
 	return fmt.Sprintf("steps=%d deadlock=%v horizon=%v stepcap=%v blocked=%v leaked=%d vnow=%s", r.Steps, r.Deadlock, r.Horizon, r.StepCap, r.Blocked, r.Leaked, r.VirtualNow)
 }
